@@ -89,6 +89,19 @@ class WithMeta(metaclass=Meta):
     pass
 
 
+class EqMeta(type):
+    """a metaclass with its own == (ORM column classes, registries): comparing the class with anything is journalled"""
+    def __eq__(cls, other):
+        J("EqMeta.__eq__")
+        return cls is other
+
+    __hash__ = type.__hash__
+
+
+class WithEqMeta(metaclass=EqMeta):
+    pass
+
+
 class MyList(list):
     def __iter__(self):
         J("MyList.__iter__")
@@ -243,6 +256,17 @@ class Hashed(metaclass=HashMeta):
     pass
 
 
+def eqmeta_bare(i):
+    """instances of a class whose metaclass defines ==, as argument, return value and yield value (never inside a container)"""
+    def gen():
+        yield WithEqMeta()
+    return type(passthrough(WithEqMeta())) is WithEqMeta and len(list(gen())) == 1
+
+
+def eqmeta_in_container(i):
+    return len(passthrough([WithEqMeta()]))
+
+
 def takes_class(i):
     return passthrough(Hashed) is Hashed
 
@@ -284,6 +308,18 @@ def uses_random(i):
         passthrough(j)
         plain_value(j)
     return (first, random.random(), random.randrange(1000))
+
+
+def draws_random(i):
+    """draws from the shared generator without seeding it (the caller seeded it earlier), between traced calls"""
+    import random
+    out = []
+    for j in range(4):
+        passthrough(j)
+        out.append(random.randrange(1000))
+        plain_value(j)
+    out.append(random.random())
+    return tuple(out)
 
 
 def plain_value(j):
